@@ -17,7 +17,7 @@ from ..poly import Poly
 from ..paths import walk_no_nested
 from ..loops import loop_context
 from ..effects import is_call_to
-from .c04 import placement_sites, GENERIC, is_subject_to
+from .c04 import placement_sites, GENERIC, is_subject_to, replay_loop
 
 LEVEL = "other"
 
@@ -27,11 +27,10 @@ def r14_1(ctx):
     prog = ctx.prog
     f = prog.own_method("OptiWrapper", "transcribe_placeholders")
     sc = ctx.scope(f)
-    loops = [l for l in walk_no_nested(f.node) if isinstance(l, ast.For) and "self.constraints" in ast.unparse(l.iter) and "zip" in ast.unparse(l.iter)]
-    if len(loops) != 1:
+    rl = replay_loop(ctx, f)
+    if rl is None:
         raise AnalysisError("transcribe_placeholders: replay loop not found")
-    l = loops[0]
-    cv, sv = l.target.elts[0].id, l.target.elts[1].id
+    l, cv, sv = rl[0], rl[1], rl[2]
     # branches on mc.type
     branches = [i for i in ast.walk(l) if isinstance(i, ast.If) and "mc.type" in ast.unparse(i.test) or (isinstance(i, ast.If) and ".type in" in ast.unparse(i.test))]
     types = {}
